@@ -150,6 +150,30 @@ PROPS = {
         "trusted_base": COMMON_TB + ["rational model of binary64 rounding (GoBT/Json/Amount.lean), validated bit-for-bit against Go on every run"],
         "assumptions": ["Go float64 division/multiplication are IEEE-754 round-to-nearest-even; JSON float printing round-trips"],
     },
+    "C15": {
+        "manifest": {
+            "text": "Lean 4 theorems: ValidateAddress (25-byte accumulate-and-carry decoder, version, checksum, canonical re-encoding) accepts a string only if it is the Base58Check encoding of version 0x00/0x6f and a 20-byte hash with a correct checksum; the canonical P2PKH script of a 20-byte hash is 25 bytes, is recognised by IsP2PKH and yields the hash back; a machine-checked witness that the script-building path (NewAddressFromString -> NewP2PKHFromAddress / PayToAddress / ChangeToAddress) accepts a wrong checksum (known finding F-C15-01, not repairable without editing the repository's tests). Tied to the code by a differential check: keys x networks through every constructor (agreement, recovery, validation), and for valid addresses every single-character substitution, adjacent transposition, insertion and deletion, leading-1 variants, non-alphabet characters, wrong versions/lengths/checksums, over-long strings congruent to a valid payload modulo 2^200; the predicate compares acceptance by each entry point with an independent Base58Check recogniser.",
+            "note": "Partial: base58 Decode(Encode x) = x and the address round trip are exercised by correspondence, not yet proved (base58 bignum arithmetic of go-bk is modelled). SHA-256/RIPEMD-160 are parameters of the theorems and executable validated models in the driver. The clause 'accepted only with a correct checksum' is FALSE for the script-building entry points (known finding).",
+        },
+        "generators": ["C15"],
+        "thorough_seeds": 1,
+        "rule": "random 33-byte keys x both networks through all constructors; for 5 (quick) / 120 (thorough) valid addresses: all 34x57 substitutions (quick: 1 in 4), 33 transpositions, 35x58 insertions (quick: 1 in 6), 34 deletions, extra/missing leading 1, non-alphabet and non-ASCII characters, 6 wrong versions, 4 wrong payload lengths, wrong checksum, 8 wrap-around strings (payload + k*2^200); random base58 strings. Non-trivial = string of >= 20 characters or a key op.",
+        "nontrivial": lambda op, impl: len(op) >= 48,
+        "trusted_base": COMMON_TB + ["go-bk base58 is modelled (Encode/Decode as arithmetic on the big-endian value)", "SHA-256 / RIPEMD-160 executable models validated on vectors"],
+        "assumptions": ["ASCII address strings (non-ASCII bytes are exercised but only for rejection)"],
+    },
+    "C17": {
+        "manifest": {
+            "text": "Lean 4 theorems over a model of EncodeBIP276/DecodeBIP276 (the regular expression as an explicit splitter at the last colon): layout of the produced text, accepted text is well-formed with the checksum of the canonical payload of the decoded fields (wrong checksum / malformed layout rejected), ValidateAddress accepts a bitcoin-script string iff it decodes; machine-checked witness that the code's field order (network before version) differs from the BIP's (known finding F-C17-01, pinned by the repository's own test). Tied to the code by a differential check over all 65,025 version/network pairs, both prefixes, payload lengths 0/1/2/25/300, random payloads (checksums with leading zero digits), and every single-character corruption, deletion and insertion of valid encodings; the predicate checks round trip, the BIP layout and rejection on the implementation's own output.",
+            "note": "Partial: the unbounded round-trip theorem decode(encode b) = b is not yet proved - the round trip is decided exhaustively over all 65,025 field pairs by the correspondence predicate; regexp, fmt and strconv are modelled. The layout clause is violated by the code when version != network (known finding).",
+        },
+        "generators": ["C17"],
+        "thorough_seeds": 1,
+        "rule": "all 255x255 (version, network) pairs x prefix (quick: alternating prefix, one payload; thorough: both prefixes x five payload lengths), out-of-range fields, 600/20000 random payloads, and for 12/200 valid encodings every position x 27 replacement characters, deletion and insertion, upper-casing, prefixing, trailing newline. Non-trivial = every op (all carry a non-empty text).",
+        "nontrivial": lambda op, impl: True,
+        "trusted_base": COMMON_TB + ["SHA-256 executable model validated on vectors"],
+        "assumptions": ["Go regexp leftmost-lazy semantics reduce to 'split at the last colon' for this expression (argued in GoBT/Addr/Bip276.lean)"],
+    },
 }
 
 NOT_APPLICABLE = {}
